@@ -180,6 +180,8 @@ impl FeatureState for TravelLimitState {
                         .iter()
                         // consider only jobs with time windows
                         .filter_map(|time_span| time_span.as_time_window())
+                        // NOTE: a job without time windows has an unbounded one which gives no hint about departure
+                        .filter(|tw| tw.end < Float::MAX)
                         .map(move |tw| (tw, location))
                 })
             })
@@ -196,6 +198,8 @@ impl FeatureState for TravelLimitState {
                     job_tw.start - duration + (job_tw.end - job_tw.start) / 2., // middle
                 ]
                 .into_iter()
+                // do not depart earlier than shift start
+                .map(|departure_time| departure_time.max(start_place.time.earliest.unwrap_or(0.)))
                 // do not depart outside allowed time
                 .filter(|&departure_time| {
                     let start_latest = start_place.time.latest.unwrap_or(f64::MAX);
